@@ -257,7 +257,7 @@ class Rig:
         return status, value, info
 
 
-def _fitted_diff(case, a, b):
+def _fitted_diff(case, a, b, tol=1e-9):
     sa, sb = case.fitted_state(a), case.fitted_state(b)
     for k in sorted(sa):
         if k not in sb:
@@ -271,9 +271,18 @@ def _fitted_diff(case, a, b):
                 pass
             continue
         if isinstance(va, (np.ndarray, list, tuple, float, int, np.generic)) or hasattr(va, "tocsr"):
-            if not A.same(va, vb, 1e-9):
+            if not A.same(va, vb, tol):
                 return f"{k}: {A.describe_diff(va, vb)}"
     return None
+
+
+def _out_tol(case, ctx):
+    """Output tolerance.  Compiled Sinkhorn runs sum the stopping-test error in a parallel reduction whose order is not
+    fixed, so two executions of the same call may stop ten iterations apart (differences at the level of the 1e-9
+    convergence tolerance, amplified by the projection): 1e-6 there, as in C12; 1e-8/1e-9 everywhere else."""
+    if (not ctx.interp) and isinstance(case, A.WassersteinCase) and case.which in ("W-sinkhorn", "Sinkhorn"):
+        return 1e-6
+    return max(case.tol, 1e-9)
 
 
 def _repro_sig(case, sig):
@@ -514,13 +523,13 @@ def _history(tape, ctx, case, rig, probes, faults, allow_cancel):
             held.update(last_fit_objects)
             # oracle 4: same seed, same model (the twin was fitted under a different global RNG state / schedule)
             if not (fault and fired):
-                d = _fitted_diff(case, primary, twin)
+                d = _fitted_diff(case, primary, twin, max(1e-9, _out_tol(case, ctx) if not ctx.interp else 1e-9))
                 if d:
                     raise Violation(_repro_sig(case, f"C13|{tag}|same-seed-different-model"),
                                     f"two {method} calls with identical parameters and data (global numpy RNG seeded differently) "
                                     f"disagree: {d}", desc)
                 if method == "fit_transform" and case.has_transform is not None:
-                    if not A.same(pval, tval, max(case.tol, 1e-9)):
+                    if not A.same(pval, tval, _out_tol(case, ctx)):
                         raise Violation(_repro_sig(case, f"C13|{tag}|same-seed-different-output|fit_transform"),
                                         f"fit_transform outputs of two identical fits differ: {A.describe_diff(pval, tval)}", desc)
                 probes.hit("same-model-checked")
@@ -545,7 +554,7 @@ def _history(tape, ctx, case, rig, probes, faults, allow_cancel):
             if tst == "exc":
                 raise Violation(f"C13|{tag}|fit-outcome-differs-between-identical-fits|{fit_method}",
                                 f"pristine twin {fit_method} raised {type(tval).__name__}: {tval} although the primary's identical fit returned", desc)
-            d = _fitted_diff(case, primary, twin) if not memo and not any(o.get("fired") for o in ops_log) else None
+            d = _fitted_diff(case, primary, twin, max(1e-9, _out_tol(case, ctx) if not ctx.interp else 1e-9)) if not memo and not any(o.get("fired") for o in ops_log) else None
             if d:
                 raise Violation(_repro_sig(case, f"C13|{tag}|transform-changed-fitted-state-or-same-seed-different-model"),
                                 f"fitted attributes of the primary differ from a fresh identical fit: {d}", desc)
@@ -567,7 +576,7 @@ def _history(tape, ctx, case, rig, probes, faults, allow_cancel):
                                         f"transform of batch B{b} returned in this interpreter (history {[o['op'] for o in ops_log]}) "
                                         f"but the same fit + single transform in a pristine interpreter state gave {res}", desc)
                     mine = case.rows(val, len(ids))
-                    if len(mine) != len(res[1]) or not all(A.row_same(x, y, max(case.tol, 1e-9)) for x, y in zip(mine, res[1])):
+                    if len(mine) != len(res[1]) or not all(A.row_same(x, y, _out_tol(case, ctx)) for x, y in zip(mine, res[1])):
                         raise Violation(f"C13|{tag}|single-call-output-depends-on-process-state",
                                         f"a pristine twin's single transform of batch B{b} in this interpreter (after the history "
                                         f"{[o['op'] for o in ops_log]}) differs from the same fit + single transform performed in a "
@@ -589,7 +598,7 @@ def _history(tape, ctx, case, rig, probes, faults, allow_cancel):
             probes.hit("transform-with-invalid-item:" + pst)
         elif pst == "ok":
             if mst == "ok":
-                if not A.same(pval, mval, max(case.tol, 1e-9)):
+                if not A.same(pval, mval, _out_tol(case, ctx)):
                     sfx = "|after-fault" if any(o.get("fired") for o in ops_log) else ""
                     raise Violation(_repro_sig(case, f"C13|{tag}|transform-differs-from-single-call{sfx}"),
                                     f"transform of batch B{b} at step {opi} of the history {[o['op'] for o in ops_log]} differs from a pristine "
